@@ -20,6 +20,11 @@ type TrackConn struct {
 	closed bool
 	ID     int // number of this transport within the scenario (1, 2, ...)
 
+	// Timeout is the timeout the client was configured with; a Read that begins with at least half of it ahead and
+	// ends in a timeout error is reported ("rwait": the caller waited for the peer until the deadline).
+	Timeout time.Duration
+	rdl     time.Time
+
 	// scripted transport failures (cleartext connections only): WFail lists the command
 	// occurrences whose write fails; a CONTENT key fails the first write of that message's content.
 	WFail   map[Key]bool
@@ -114,7 +119,14 @@ func (t *TrackConn) Write(p []byte) (int, error) {
 
 // Read watches for the reply to DATA (354 switches to content mode) and for the end of AUTH.
 func (t *TrackConn) Read(p []byte) (int, error) {
+	t.mu.Lock()
+	rdl := t.rdl
+	t.mu.Unlock()
+	start := time.Now()
 	n, err := t.Conn.Read(p)
+	if ne, ok := err.(net.Error); ok && ne.Timeout() && t.Timeout > 0 && !rdl.IsZero() && rdl.Sub(start) >= t.Timeout/2 {
+		t.rec.Emit("rwait", "cid", t.ID)
+	}
 	if len(t.WFail) > 0 && n >= 3 {
 		t.mu.Lock()
 		if t.dataCmd {
@@ -165,11 +177,17 @@ func (t *TrackConn) ForceClose() { _ = t.Conn.Close() }
 // SetDeadline records whether a deadline is armed.
 func (t *TrackConn) SetDeadline(d time.Time) error {
 	t.rec.Emit("setdl", "armed", !d.IsZero())
+	t.mu.Lock()
+	t.rdl = d
+	t.mu.Unlock()
 	return t.Conn.SetDeadline(d)
 }
 
 // SetReadDeadline records whether a deadline is armed.
 func (t *TrackConn) SetReadDeadline(d time.Time) error {
 	t.rec.Emit("setdl", "armed", !d.IsZero())
+	t.mu.Lock()
+	t.rdl = d
+	t.mu.Unlock()
 	return t.Conn.SetReadDeadline(d)
 }
